@@ -6,7 +6,10 @@ over a 15-token alphabet: names with recognised / unrecognised / no extension, "
 (0, 1, len-1, len, len+1, 2^31, 2^32, 2^62, 2^63-1, 2^63, 2^63+1, 2^64-len, 2^64-8, 2^64-1-len, 2^64-1),
 checking the transcribed path and bounds predicates against the requirement; the harness builds an ONNX
 model whose initializer uses that external data in a real directory tree and loads it through FileLoader,
-MmapLoader and MemLoader; Trace_ExtData decides from the recorded outcome and bytes."""
+MmapLoader and MemLoader; Trace_ExtData decides from the recorded outcome and bytes. Two builds of the harness
+run the cases: cargo profile `release` (overflow checks off) and `checked` (release + overflow-checks +
+debug-assertions; in the quick tier all (offset, length) pairs and the locations of <= 2 tokens); the build
+profile is part of every signature."""
 import json
 import os
 
@@ -18,12 +21,14 @@ CFG = "load/Trace_ExtData.cfg"
 
 def run(ctx):
     ctx.build(["vh-load"])
+    ctx.build(["vh-load"], profile="checked")
     trace = ctx.path("extdata.ndjson")
     if ctx.replay:
         case = ctx.replay["case"]
-        ctx.harness("vh-load", ["extdata", "--out", trace, "--only-case", json.dumps(case)])
+        ctx.harness("vh-load", ["extdata", "--out", trace, "--only-case", json.dumps(case)],
+                    profile=case.get("build", "release"))
         res = ctx.tlc_trace(SPEC, CFG, trace, timeout=1800)
-        return finish(ctx, trace, res, 1)
+        return finish(ctx, [(trace, res)], 1)
     cases = ctx.path("cases.jsonl")
     cfg = "load/MC_ExternalData_3.cfg" if ctx.quick else "load/MC_ExternalData_4.cfg"
     # Model checking and generation in one run: PathSafe / RangeSafe / LoadersAgree are invariants of the
@@ -42,9 +47,13 @@ def run(ctx):
     ctx.cov["cases_generated_by_tlc"] = n
     ctx.harness("vh-load", ["extdata", "--cases", cases, "--out", trace], timeout=3000)
     res = ctx.tlc_trace(SPEC, CFG, trace, timeout=3000, heap="12g")
+    trace_c = ctx.path("extdata_checked.ndjson")
+    ctx.harness("vh-load", ["extdata", "--cases", cases, "--out", trace_c, "--max-tokens", 2 if ctx.quick else 3],
+                timeout=3000, profile="checked")
+    res_c = ctx.tlc_trace(SPEC, CFG, trace_c, timeout=3000, heap="12g")
     if not ctx.quick or os.environ.get("VERIF_SELFTEST"):
         selftest(ctx, trace)
-    finish(ctx, trace, res, n)
+    finish(ctx, [(trace, res), (trace_c, res_c)], n)
 
 
 def selftest(ctx, trace):
@@ -91,14 +100,28 @@ def selftest(ctx, trace):
     ctx.log("binding self-test: 4 corrupted results rejected by Trace_ExtData")
 
 
-def finish(ctx, trace, res, n):
-    st = res["stats"]
-    total, distinct, dnt, samples = vlib.scan_cases(
-        trace, ["loader", "kind", "t", "off", "len"],
-        lambda r: len(r["t"]) >= 2 or r["kind"] == "range")
-    ctx.cov["evaluations"] = st.get("cases", total)
+def finish(ctx, runs, n):
+    st = {}
+    bad = []
+    badtotal = 0
+    dnt = 0
+    builds = []
+    for trace, res in runs:
+        total, distinct, d, samples = vlib.scan_cases(
+            trace, ["build", "loader", "kind", "t", "off", "len"],
+            lambda r: len(r["t"]) >= 2 or r["kind"] == "range")
+        ctx.add_samples(samples, cap=6)
+        dnt += d
+        for k, v in res["stats"].items():
+            st[k] = st.get(k, 0) + v
+        bad += res["bad"]
+        badtotal += res["badtotal"]
+        if samples:
+            builds.append(samples[0]["build"])
+    ctx.cov["evaluations"] = st.get("cases", 0)
     ctx.cov["distinct_nontrivial"] = dnt
-    ctx.cov["traces_validated_against_impl"] = st.get("cases", total)
+    ctx.cov["traces_validated_against_impl"] = st.get("cases", 0)
+    ctx.cov["builds"] = builds
     ctx.cov["loads_ok"] = st.get("ok", 0)
     ctx.cov["loads_ok_among_path_cases"] = st.get("ok_path_cases", 0)
     ctx.cov["loads_err"] = st.get("err", 0)
@@ -110,14 +133,14 @@ def finish(ctx, trace, res, n):
             % st["empty_beyond_eof_ok"])
     if not ctx.replay and st.get("ok_path_cases", 0) == 0:
         raise vlib.ToolError("vacuous run: no location loaded successfully")
-    ctx.add_samples(samples)
-    ctx.judge(res["bad"], "vh-load extdata", SPEC, CFG, case_lookup=lambda rec: rec.get("case"),
-              badtotal=res["badtotal"])
+    ctx.judge(bad, "vh-load extdata", SPEC, CFG, case_lookup=lambda rec: rec.get("case"), badtotal=badtotal)
     ctx.finish(
         rule="cases = (TLC-enumerated location or (offset,length) pair) x loader in {file, mmap, mem}; distinct by "
              "(loader, tokens, offset, length); non-trivial = location of >= 2 tokens or a boundary (offset,length) pair",
         assumptions=[
             "Unix path semantics (the sandbox is Linux); symlinks inside the model directory are not exercised",
+            "build profiles exercised: harness profile `release` (overflow checks and debug assertions off) and "
+            "`checked` (the same plus overflow-checks and debug-assertions); a panic in either is a violation",
             "'recognised data extension' is read as rten documents and implements it: the extension begins with "
             "'data' or 'onnx_data'",
             "an empty byte range is within any file whatever its offset",
